@@ -33,6 +33,7 @@ REGISTRY = {
     "C15": ("auverif.props.c15", "run"),
     "C16": ("auverif.props.c16", "run"),
     "C17": ("auverif.props.c17", "run"),
+    "C18": ("auverif.props.c18", "run"),
 }
 
 
